@@ -375,7 +375,15 @@ func c10Hops(c *Ctx) {
 		if IsNilConst(Resolve(r.Results[0], nil)) {
 			continue
 		}
-		ok, path := Guarded(dwr.Blocks[0], r, bound, nil)
+		res0 := r.Results[0]
+		ok, path := GuardedWhen(dwr.Blocks[0], r, bound, nil, func(st PState) bool {
+			// arrivals that hand out no request (nil on this path) are not redirects
+			v := Base(Resolve(res0, st), st)
+			if cst, isC := EvalConst(v, st); isC && cst.Value == nil {
+				return false
+			}
+			return !IsNilConst(v)
+		})
 		c.Check(ok && len(bound) > 0, "R4", "redirect-only-under-bound", p.InstrPos(r), "a redirected request is handed back only when the hop list is below the bound", "a redirect can be followed without the hop-count test: "+path)
 	}
 	// re-issue sites: functions that call DoWithRedirect and then call (directly or via one hop) themselves
